@@ -26,7 +26,8 @@ def plan(tier, seed):
     return [('client', 3000 if tier == 'quick' else 40000), ('server', len(_server_cases()))]
 
 
-TD_MS = [1, 2, 499, 500, 501, 999, 1000, 1001, 1500, 2750, 60000, 120250, 600000, 24 * 24 * 3600 * 1000]
+TD_MS = [1, 2, 499, 500, 501, 999, 1000, 1001, 1500, 2750, 60000, 120250, 600000, 24 * 24 * 3600 * 1000,
+         2 ** 31 - 1, 2 ** 31, 30 * 24 * 3600 * 1000, 2 ** 32 - 1]      # the fields are 32 bits wide
 
 
 def _mime(rng):
@@ -182,6 +183,10 @@ async def _server_case(rng, case):
     kw = {}
     if case.get('publisher'):
         kw['lease_publisher'] = SingleLeasePublisher(maximum_request_count=5, maximum_lease_time=timedelta(seconds=3))
+    # whether the server itself honours leases as a requester has nothing to do with being able to grant them
+    case['server_honors_lease'] = bool(rng.random() < 0.4)
+    if case['server_honors_lease']:
+        kw['honor_lease'] = True
     rw = RawWorld(rng, 's', link_kind=case['link'], server_kwargs=kw)
     await rw.start(send_setup=False)
     if case.get('raises'):
